@@ -192,15 +192,15 @@ impl<K: KeyT, V: ValT> World<K, V> {
         for (mi, slot) in self.maps.iter().enumerate() {
             let st = slot.m.verif_state();
             if st.split && (st.cursor_remaining != st.old_len || !st.cursor_exact) {
-                err("I1-cursor", format!("map {} (logic-error keys): cached iterator remaining={} old_len={} exact={}", mi, st.cursor_remaining, st.old_len, st.cursor_exact));
+                err("I1-cursor", format!("map {} (structure only): cached iterator remaining={} old_len={} exact={}", mi, st.cursor_remaining, st.old_len, st.cursor_exact));
                 return out;
             }
             let r = call(|| {
                 let len = sut(|| slot.m.len());
                 let mut seen: Vec<(u64, u64)> = Vec::new();
                 for (k, v) in sut(|| slot.m.iter()) {
-                    k.check("iter key (logic-error keys)");
-                    v.check("iter value (logic-error keys)");
+                    k.check("iter key (structure only)");
+                    v.check("iter value (structure only)");
                     seen.push((k.oid(), v.oid()));
                     if seen.len() > len + 8 {
                         break;
@@ -216,7 +216,7 @@ impl<K: KeyT, V: ValT> World<K, V> {
                     for (a, b) in seen {
                         for id in [a, b] {
                             if id != 0 && !ids.insert(id) {
-                                err("ledger", format!("map {} (logic-error keys): object {} is stored twice", mi, id));
+                                err("ledger", format!("map {} (structure only): object {} is stored twice", mi, id));
                             }
                         }
                     }
@@ -227,14 +227,14 @@ impl<K: KeyT, V: ValT> World<K, V> {
         for (si, slot) in self.sets.iter().enumerate() {
             let st = slot.s.verif_state();
             if st.split && (st.cursor_remaining != st.old_len || !st.cursor_exact) {
-                err("I1-cursor", format!("set {} (logic-error keys): cached iterator remaining={} old_len={} exact={}", si, st.cursor_remaining, st.old_len, st.cursor_exact));
+                err("I1-cursor", format!("set {} (structure only): cached iterator remaining={} old_len={} exact={}", si, st.cursor_remaining, st.old_len, st.cursor_exact));
                 return out;
             }
             let r = call(|| {
                 let len = sut(|| slot.s.len());
                 let mut seen: Vec<u64> = Vec::new();
                 for k in sut(|| slot.s.iter()) {
-                    k.check("set iter (logic-error keys)");
+                    k.check("set iter (structure only)");
                     seen.push(k.oid());
                     if seen.len() > len + 8 {
                         break;
@@ -249,7 +249,7 @@ impl<K: KeyT, V: ValT> World<K, V> {
                     }
                     for id in seen {
                         if id != 0 && !ids.insert(id) {
-                            err("ledger", format!("set {} (logic-error keys): object {} is stored twice", si, id));
+                            err("ledger", format!("set {} (structure only): object {} is stored twice", si, id));
                         }
                     }
                 }
@@ -263,7 +263,7 @@ impl<K: KeyT, V: ValT> World<K, V> {
             if over {
                 err("ledger", "more destructor runs of zero-sized objects than objects were created (double drop)".to_string());
             } else if live < stored {
-                err("ledger", format!("(logic-error keys) the collections hold {} zero-sized objects but only {} are alive", stored, live));
+                err("ledger", format!("(structure only) the collections hold {} zero-sized objects but only {} are alive", stored, live));
             }
         }
         for e in ctx::take_errors() {
